@@ -1,7 +1,827 @@
 package main
 
-func replayObligation(eng *Engine, o *Obligation, model, repo, outDir string) *replayResult { return nil }
+// Replay of solver counterexamples against the real code (DESIGN.md §6.2).
+//
+// 1. Inputs are read off the solver model through contract-language expressions evaluated in the
+//    function's entry environment (r.pos, r.data[...], length, h.ID, ...).
+// 2. An in-package Go test is generated that builds those inputs (scripted reader / recording
+//    writer for streams), calls the REAL function and prints what it observed as JSON. It is run
+//    with `go test -overlay`, so nothing is written under /repo.
+// 3. The observations are asserted on the post-state terms of the failed clause, the inputs are
+//    pinned to the model's values, and the solver is asked whether the clause can still hold. Only
+//    if it cannot (unsat) is the violation reported as reproduced; unobservable ghost state is left
+//    unconstrained, which can only make a reproduction harder, never spurious.
+
+import (
+	"encoding/json"
+	"fmt"
+	"go/types"
+	"math/big"
+	"os"
+	"os/exec"
+	"path/filepath"
+	"regexp"
+	"strings"
+	"context"
+	"time"
+)
+
+const replayMaxBytes = 1 << 16
+
+type rvar struct {
+	name string // contract name
+	t    types.Type
+	role string // recv | param | result
+}
+
+// queryModel returns the model values of the given Int/Bool terms for an obligation, with extra
+// assertions (pins) added.
+func queryModel(eng *Engine, o *Obligation, terms []*Term, pins []*Term, outDir string, timeout int) ([]*big.Int, bool) {
+	saved := o.Extra
+	o.Extra = append(append([]*Term(nil), saved...), pins...)
+	var defs []*Term
+	names := make([]string, len(terms))
+	for i, t := range terms {
+		n := fmt.Sprintf("gv!%d", i)
+		names[i] = n
+		if t.S == SBool {
+			defs = append(defs, Eq(Var(n, SInt), Ite(t, Num(1), Num(0))))
+		} else {
+			defs = append(defs, Eq(Var(n, SInt), t))
+		}
+	}
+	o.Extra = append(o.Extra, defs...)
+	script := o.script(eng, true)
+	o.Extra = saved
+	script = strings.Replace(script, "(get-model)\n", "", 1)
+	var sb strings.Builder
+	sb.WriteString(script)
+	sb.WriteString("(get-value (")
+	for _, n := range names {
+		sb.WriteString(smtName(n) + " ")
+	}
+	sb.WriteString("))\n")
+	file := filepath.Join(outDir, "replay_query.smt2")
+	os.WriteFile(file, []byte(sb.String()), 0o644)
+	status, out, _ := runSolver(solvers[0], file, timeout)
+	if status != "sat" {
+		return nil, false
+	}
+	re := regexp.MustCompile(`\(\|?(gv![0-9]+)\|?\s+(\(-\s*[0-9]+\)|[0-9]+)\)`)
+	vals := map[string]*big.Int{}
+	for _, m := range re.FindAllStringSubmatch(out, -1) {
+		v := strings.NewReplacer("(", "", ")", "", "-", "", " ", "").Replace(m[2])
+		n, _ := new(big.Int).SetString(v, 10)
+		if strings.Contains(m[2], "-") {
+			n.Neg(n)
+		}
+		vals[m[1]] = n
+	}
+	res := make([]*big.Int, len(terms))
+	for i, n := range names {
+		v, ok := vals[n]
+		if !ok {
+			return nil, false
+		}
+		res[i] = v
+	}
+	return res, true
+}
+
+type replayer struct {
+	eng     *Engine
+	o       *Obligation
+	c       *FnCtx
+	outDir  string
+	repo    string
+	pins    []*Term
+	timeout int
+	notes   []string
+}
+
+func (rp *replayer) evalPre(expr string) (*Term, error) {
+	e, err := ParseExpr(expr)
+	if err != nil {
+		return nil, err
+	}
+	var t *Term
+	func() {
+		defer func() {
+			if r := recover(); r != nil {
+				err = fmt.Errorf("%v", r)
+			}
+		}()
+		v := rp.c.preEnv.eval(e)
+		if v.K != VScalar {
+			err = fmt.Errorf("not a scalar: %s", expr)
+			return
+		}
+		t = v.X
+	}()
+	return t, err
+}
+
+func (rp *replayer) evalPost(expr string) (*Term, error) {
+	e, err := ParseExpr(expr)
+	if err != nil {
+		return nil, err
+	}
+	return rp.c.postEnv.evalClause(e)
+}
+
+// get reads model values of pre-state expressions and pins them.
+func (rp *replayer) get(exprs ...string) ([]*big.Int, error) {
+	var terms []*Term
+	for _, x := range exprs {
+		t, err := rp.evalPre(x)
+		if err != nil {
+			return nil, fmt.Errorf("%s: %v", x, err)
+		}
+		terms = append(terms, t)
+	}
+	vals, ok := queryModel(rp.eng, rp.o, terms, rp.pins, rp.outDir, rp.timeout)
+	if !ok {
+		return nil, fmt.Errorf("solver gave no model for %v", exprs)
+	}
+	for i, t := range terms {
+		if t.S == SBool {
+			if vals[i].Sign() != 0 {
+				rp.pins = append(rp.pins, t)
+			} else {
+				rp.pins = append(rp.pins, Not(t))
+			}
+		} else {
+			rp.pins = append(rp.pins, Eq(t, NumBig(vals[i])))
+		}
+	}
+	return vals, nil
+}
+
+func (rp *replayer) getBytes(lenExpr string, elemFmt string) ([]byte, error) {
+	lv, err := rp.get(lenExpr)
+	if err != nil {
+		return nil, err
+	}
+	if !lv[0].IsInt64() || lv[0].Int64() < 0 || lv[0].Int64() > replayMaxBytes {
+		return nil, fmt.Errorf("%s = %s: too large to replay", lenExpr, lv[0])
+	}
+	n := int(lv[0].Int64())
+	out := make([]byte, n)
+	for lo := 0; lo < n; lo += 256 {
+		hi := lo + 256
+		if hi > n {
+			hi = n
+		}
+		var exprs []string
+		for i := lo; i < hi; i++ {
+			exprs = append(exprs, fmt.Sprintf(elemFmt, i))
+		}
+		vs, err := rp.get(exprs...)
+		if err != nil {
+			return nil, err
+		}
+		for i, v := range vs {
+			out[lo+i] = byte(new(big.Int).And(v, big.NewInt(255)).Int64())
+		}
+	}
+	return out, nil
+}
+
+func goBytes(b []byte) string {
+	var sb strings.Builder
+	sb.WriteString("[]byte{")
+	for i, x := range b {
+		if i > 0 {
+			sb.WriteString(",")
+		}
+		fmt.Fprintf(&sb, "%d", x)
+	}
+	sb.WriteString("}")
+	return sb.String()
+}
+
+type goInput struct {
+	decl    string   // statements declaring the variable
+	expr    string   // expression passed to the call
+	observe []string // Go statements appending to obs after the call
+}
+
+// buildInput constructs Go code for a contract variable from the model.
+func (rp *replayer) buildInput(name string, t types.Type, goVar string, pkg *types.Package) (*goInput, error) {
+	qual := func(p *types.Package) string {
+		if p == pkg {
+			return ""
+		}
+		return p.Name()
+	}
+	ts := types.TypeString(t, qual)
+	switch u := t.Underlying().(type) {
+	case *types.Basic:
+		switch {
+		case isBoolType(t):
+			v, err := rp.get(name)
+			if err != nil {
+				return nil, err
+			}
+			return &goInput{decl: fmt.Sprintf("var %s %s = %v", goVar, ts, v[0].Sign() != 0), expr: goVar}, nil
+		case isStringType(t):
+			b, err := rp.getBytes("len("+name+")", name+"[%d]")
+			if err != nil {
+				return nil, err
+			}
+			return &goInput{decl: fmt.Sprintf("var %s %s = %s(%s)", goVar, ts, ts, goBytes(b)), expr: goVar}, nil
+		case isFloatType(t):
+			return nil, fmt.Errorf("float input %s not replayable", name)
+		default:
+			v, err := rp.get(name)
+			if err != nil {
+				return nil, err
+			}
+			return &goInput{decl: fmt.Sprintf("var %s %s = %s", goVar, ts, v[0].String()), expr: goVar}, nil
+		}
+	case *types.Slice:
+		if b, ok := u.Elem().Underlying().(*types.Basic); ok && b.Kind() == types.Uint8 {
+			bs, err := rp.getBytes("len("+name+")", name+"[%d]")
+			if err != nil {
+				return nil, err
+			}
+			in := &goInput{decl: fmt.Sprintf("var %s %s = %s(%s)", goVar, ts, ts, goBytes(bs)), expr: goVar}
+			in.observe = append(in.observe, fmt.Sprintf(`obs["bytes:%s"] = hex.EncodeToString([]byte(%s))`, name, goVar))
+			return in, nil
+		}
+		return nil, fmt.Errorf("slice input %s of %s not replayable", name, ts)
+	case *types.Interface:
+		switch shortTypeKey(t) {
+		case "io.Reader":
+			vals, err := rp.get(name+".pos", name+".len", name+".faultfree", name+".short")
+			if err != nil {
+				return nil, err
+			}
+			avail := new(big.Int).Sub(vals[1], vals[0])
+			if avail.Sign() < 0 || !avail.IsInt64() || avail.Int64() > replayMaxBytes {
+				return nil, fmt.Errorf("stream of %s bytes: too large to replay", avail)
+			}
+			data, err := rp.getBytes(name+".len - "+name+".pos", name+".data["+name+".pos + %d]")
+			if err != nil {
+				return nil, err
+			}
+			failAt := -1
+			if vals[2].Sign() == 0 {
+				// faulty stream: the fault is injected where the model's run stopped consuming
+				if pt, err := rp.evalPost(name + ".pos - old(" + name + ".pos) >= 0"); err == nil && pt != nil {
+					if pe, err2 := ParseExpr(name + ".pos - old(" + name + ".pos)"); err2 == nil {
+						func() {
+							defer func() { recover() }()
+							term := rp.c.postEnv.eval(pe).X
+							if vs, ok := queryModel(rp.eng, rp.o, []*Term{term}, rp.pins, rp.outDir, rp.timeout); ok && vs[0].IsInt64() {
+								failAt = int(vs[0].Int64())
+							}
+						}()
+					}
+				}
+			}
+			in := &goInput{decl: fmt.Sprintf("%s := &vReader{data: %s, chunk: chunk, failAt: -1, eofWithData: eofWithData}\n\tif fault { %s.failAt = %d }", goVar, goBytes(data), goVar, failAt), expr: goVar}
+			in.observe = append(in.observe,
+				fmt.Sprintf(`obs["rpos:%s"] = %s.pos`, name, goVar),
+				fmt.Sprintf(`obs["rshort:%s"] = %s.over || %s.failed`, name, goVar, goVar))
+			return in, nil
+		case "io.Writer":
+			vals, err := rp.get(name+".len", name+".accepting")
+			if err != nil {
+				return nil, err
+			}
+			if !vals[0].IsInt64() || vals[0].Int64() < 0 || vals[0].Int64() > replayMaxBytes {
+				// the initial length is arbitrary: re-pin to a small one if the model allows it
+				return nil, fmt.Errorf("writer with initial length %s: too large to replay", vals[0])
+			}
+			pre, err := rp.getBytes(name+".len", name+".data[%d]")
+			if err != nil {
+				return nil, err
+			}
+			in := &goInput{decl: fmt.Sprintf("%s := &vWriter{out: %s, accept: %v, budget: budget}", goVar, goBytes(pre), vals[1].Sign() != 0), expr: goVar}
+			in.observe = append(in.observe,
+				fmt.Sprintf(`obs["wout:%s"] = hex.EncodeToString(%s.out)`, name, goVar),
+				fmt.Sprintf(`obs["wwrites:%s"] = %s.writes`, name, goVar))
+			return in, nil
+		}
+		return nil, fmt.Errorf("interface input %s of type %s not replayable", name, ts)
+	case *types.Pointer:
+		st, ok := u.Elem().Underlying().(*types.Struct)
+		if !ok {
+			return nil, fmt.Errorf("pointer input %s not replayable", name)
+		}
+		ets := types.TypeString(u.Elem(), qual)
+		in := &goInput{expr: goVar}
+		var fields []string
+		var pre []string
+		if err := rp.structFields(name, st, goVar, pkg, &fields, &pre, &in.observe, ""); err != nil {
+			return nil, err
+		}
+		in.decl = strings.Join(pre, "\n\t") + fmt.Sprintf("\n\t%s := &%s{%s}", goVar, ets, strings.Join(fields, ", "))
+		return in, nil
+	case *types.Struct:
+		in := &goInput{expr: goVar}
+		var fields, pre []string
+		var obsDummy []string
+		if err := rp.structFields(name, u, goVar, pkg, &fields, &pre, &obsDummy, ""); err != nil {
+			return nil, err
+		}
+		in.decl = strings.Join(pre, "\n\t") + fmt.Sprintf("\n\t%s := %s{%s}", goVar, ts, strings.Join(fields, ", "))
+		return in, nil
+	}
+	return nil, fmt.Errorf("input %s of type %s not replayable", name, ts)
+}
+
+func (rp *replayer) structFields(name string, st *types.Struct, goVar string, pkg *types.Package, fields, pre, observe *[]string, path string) error {
+	for i := 0; i < st.NumFields(); i++ {
+		f := st.Field(i)
+		fn := name + "." + f.Name()
+		gv := fmt.Sprintf("%s_%s", goVar, f.Name())
+		if inner, ok := f.Type().Underlying().(*types.Struct); ok {
+			var sub, subObs []string
+			if err := rp.structFields(fn, inner, gv, pkg, &sub, pre, &subObs, path+f.Name()+"."); err != nil {
+				return err
+			}
+			ts := types.TypeString(f.Type(), func(p *types.Package) string {
+				if p == pkg {
+					return ""
+				}
+				return p.Name()
+			})
+			*fields = append(*fields, fmt.Sprintf("%s: %s{%s}", f.Name(), ts, strings.Join(sub, ", ")))
+			for _, o := range subObs {
+				*observe = append(*observe, o)
+			}
+			continue
+		}
+		in, err := rp.buildInput(fn, f.Type(), gv, pkg)
+		if err != nil {
+			return err
+		}
+		*pre = append(*pre, in.decl)
+		*fields = append(*fields, fmt.Sprintf("%s: %s", f.Name(), in.expr))
+		// observe scalar / byte-slice fields after the call
+		acc := goVar + "." + path + f.Name()
+		if strings.Contains(goVar, "_") {
+			acc = strings.SplitN(goVar, "_", 2)[0] + "." + path + f.Name()
+		}
+		switch ft := f.Type().Underlying().(type) {
+		case *types.Basic:
+			if !isFloatType(f.Type()) && !isStringType(f.Type()) {
+				*observe = append(*observe, fmt.Sprintf(`obs["field:%s"] = fmt.Sprint(%s)`, fn, acc))
+			}
+		case *types.Slice:
+			if b, ok := ft.Elem().Underlying().(*types.Basic); ok && b.Kind() == types.Uint8 {
+				*observe = append(*observe, fmt.Sprintf(`obs["fbytes:%s"] = hex.EncodeToString([]byte(%s))`, fn, acc))
+			}
+		}
+	}
+	return nil
+}
+
+const replayHelpers = `
+type vReader struct {
+	eofWithData bool
+	data   []byte
+	pos    int
+	chunk  int
+	failAt int
+	failed bool
+	over   bool
+	reads  int
+}
+
+func (r *vReader) Read(p []byte) (int, error) {
+	r.reads++
+	if r.failAt >= 0 && r.pos >= r.failAt {
+		r.failed = true
+		return 0, errors.New("verif: injected fault")
+	}
+	rem := len(r.data) - r.pos
+	if len(p) > rem {
+		r.over = true
+	}
+	if rem == 0 {
+		if len(p) == 0 {
+			return 0, nil
+		}
+		return 0, io.EOF
+	}
+	n := len(p)
+	if n > rem {
+		n = rem
+	}
+	if r.chunk > 0 && n > r.chunk {
+		n = r.chunk
+	}
+	if r.failAt >= 0 && r.pos+n > r.failAt {
+		n = r.failAt - r.pos
+	}
+	copy(p, r.data[r.pos:r.pos+n])
+	r.pos += n
+	if r.eofWithData && r.pos == len(r.data) {
+		return n, io.EOF // io.Reader allows data together with end-of-stream
+	}
+	return n, nil
+}
+
+type vWriter struct {
+	out    []byte
+	writes int
+	accept bool
+	budget int
+}
+
+func (w *vWriter) Write(p []byte) (int, error) {
+	w.writes++
+	if w.accept {
+		w.out = append(w.out, p...)
+		return len(p), nil
+	}
+	n := len(p)
+	if n > w.budget {
+		n = w.budget
+	}
+	w.budget -= n
+	w.out = append(w.out, p[:n]...)
+	if n < len(p) || w.budget == 0 {
+		return n, errors.New("verif: injected write fault")
+	}
+	return n, nil
+}
+`
+
+// replayObligation: see file comment.
+func replayObligation(eng *Engine, o *Obligation, model, repo, outDir string) (res *replayResult) {
+	res = &replayResult{}
+	defer func() {
+		if r := recover(); r != nil {
+			res.Note = fmt.Sprintf("replay aborted: %v", r)
+		}
+	}()
+	c := o.ctx
+	if c == nil || c.fn == nil || c.preEnv == nil || c.postEnv == nil || c.contract == nil {
+		res.Note = "no replay driver for this obligation kind"
+		return res
+	}
+	if o.Kind != "ensures" {
+		res.Note = "replay drivers cover postconditions (ensures) only; obligation kind " + o.Kind
+		return res
+	}
+	fn := c.fn
+	if fn.Pkg == nil {
+		res.Note = "function has no package"
+		return res
+	}
+	pkg := fn.Pkg.Pkg
+	rp := &replayer{eng: eng, o: o, c: c, outDir: outDir, repo: repo, timeout: 20}
+	ct := c.contract
+	sig := fn.Signature
+	// prefer small inputs: bound stream / slice / string sizes, relaxing the bound if needed
+	{
+		type nt struct {
+			name string
+			t    types.Type
+		}
+		var vars []nt
+		if ct.Recv != nil && sig.Recv() != nil {
+			vars = append(vars, nt{ct.Recv.Name, sig.Recv().Type()})
+		}
+		for i, p := range ct.Params {
+			vars = append(vars, nt{p.Name, sig.Params().At(i).Type()})
+		}
+		ok := false
+		for _, bound := range []int{48, 1024, 16384} {
+			var pins []*Term
+			var addSize func(name string, t types.Type, depth int)
+			addSize = func(name string, t types.Type, depth int) {
+				var exprs []string
+				switch u := t.Underlying().(type) {
+				case *types.Interface:
+					switch shortTypeKey(t) {
+					case "io.Reader":
+						exprs = append(exprs, fmt.Sprintf("%s.len - %s.pos <= %d && %s.pos >= 0", name, name, bound, name))
+					case "io.Writer":
+						exprs = append(exprs, fmt.Sprintf("%s.len <= 8 && %s.len >= 0", name, name))
+					}
+				case *types.Slice:
+					exprs = append(exprs, fmt.Sprintf("len(%s) <= %d", name, bound))
+				case *types.Basic:
+					if isStringType(t) {
+						exprs = append(exprs, fmt.Sprintf("len(%s) <= %d", name, bound))
+					}
+				case *types.Pointer:
+					if st, ok := u.Elem().Underlying().(*types.Struct); ok && depth < 2 {
+						for i := 0; i < st.NumFields(); i++ {
+							addSize(name+"."+st.Field(i).Name(), st.Field(i).Type(), depth+1)
+						}
+					}
+				case *types.Struct:
+					if depth < 2 {
+						for i := 0; i < u.NumFields(); i++ {
+							addSize(name+"."+u.Field(i).Name(), u.Field(i).Type(), depth+1)
+						}
+					}
+				}
+				for _, x := range exprs {
+					if e, err := ParseExpr(x); err == nil {
+						if t, err := c.preEnv.evalClause(e); err == nil {
+							pins = append(pins, t)
+						}
+					}
+				}
+			}
+			for _, v := range vars {
+				addSize(v.name, v.t, 0)
+			}
+			if _, sat := queryModel(eng, o, []*Term{Num(0)}, pins, outDir, 10); sat {
+				rp.pins = pins
+				ok = true
+				break
+			}
+		}
+		if !ok {
+			res.Note = "no counterexample candidate with replayable input sizes"
+			return res
+		}
+	}
+	var inputs []*goInput
+	var callArgs []string
+	recvExpr := ""
+	if ct.Recv != nil && sig.Recv() != nil {
+		in, err := rp.buildInput(ct.Recv.Name, sig.Recv().Type(), "recv", pkg)
+		if err != nil {
+			res.Note = "inputs not constructible: " + err.Error()
+			return res
+		}
+		inputs = append(inputs, in)
+		recvExpr = in.expr
+	}
+	for i, p := range ct.Params {
+		in, err := rp.buildInput(p.Name, sig.Params().At(i).Type(), fmt.Sprintf("a%d", i), pkg)
+		if err != nil {
+			res.Note = "inputs not constructible: " + err.Error()
+			return res
+		}
+		inputs = append(inputs, in)
+		callArgs = append(callArgs, in.expr)
+	}
+	// results
+	var resNames, resObs []string
+	for i := 0; i < sig.Results().Len(); i++ {
+		rn := fmt.Sprintf("r%d", i)
+		resNames = append(resNames, rn)
+		cn := ct.Results[i].Name
+		rt := sig.Results().At(i).Type()
+		switch {
+		case shortTypeKey(rt) == "error":
+			resObs = append(resObs, fmt.Sprintf(`if %s == nil { obs["err:%s"] = "nil" } else if %s == io.EOF { obs["err:%s"] = "eof" } else { obs["err:%s"] = "err"; obs["errtext:%s"] = %s.Error() }`, rn, cn, rn, cn, cn, cn, rn))
+		case isBoolType(rt):
+			resObs = append(resObs, fmt.Sprintf(`obs["bool:%s"] = %s`, cn, rn))
+		case isStringType(rt):
+			resObs = append(resObs, fmt.Sprintf(`obs["str:%s"] = hex.EncodeToString([]byte(%s))`, cn, rn))
+		case isFloatType(rt):
+			resObs = append(resObs, fmt.Sprintf(`_ = %s`, rn))
+		default:
+			if _, _, ok := intInfo(rt); ok {
+				resObs = append(resObs, fmt.Sprintf(`obs["int:%s"] = fmt.Sprint(%s)`, cn, rn))
+			} else if sl, ok := rt.Underlying().(*types.Slice); ok {
+				if b, ok := sl.Elem().Underlying().(*types.Basic); ok && b.Kind() == types.Uint8 {
+					resObs = append(resObs, fmt.Sprintf(`if %s == nil { obs["nilslice:%s"] = true }; obs["rbytes:%s"] = hex.EncodeToString([]byte(%s))`, rn, cn, cn, rn))
+				} else {
+					resObs = append(resObs, fmt.Sprintf(`_ = %s`, rn))
+				}
+			} else if _, ok := rt.Underlying().(*types.Interface); ok {
+				resObs = append(resObs, fmt.Sprintf(`if %s == nil { obs["dyn:%s"] = "nil" } else { obs["dyn:%s"] = fmt.Sprintf("%%T", %s); obs["dynval:%s"] = fmt.Sprintf("%%v", %s) }`, rn, cn, cn, rn, cn, rn))
+			} else {
+				resObs = append(resObs, fmt.Sprintf(`_ = %s`, rn))
+			}
+		}
+	}
+	call := fn.Name() + "(" + strings.Join(callArgs, ", ") + ")"
+	if recvExpr != "" {
+		call = recvExpr + "." + call
+	}
+	if len(resNames) > 0 {
+		call = strings.Join(resNames, ", ") + " := " + call
+	}
+	var body strings.Builder
+	for _, in := range inputs {
+		body.WriteString("\t" + in.decl + "\n")
+	}
+	body.WriteString("\t" + call + "\n")
+	for _, s := range resObs {
+		body.WriteString("\t" + s + "\n")
+	}
+	for _, in := range inputs {
+		for _, s := range in.observe {
+			body.WriteString("\t" + s + "\n")
+		}
+	}
+	testName := "TestVerifReplay"
+	src := "package " + pkg.Name() + "\n\nimport (\n\t\"encoding/hex\"\n\t\"encoding/json\"\n\t\"errors\"\n\t\"fmt\"\n\t\"io\"\n\t\"os\"\n\t\"testing\"\n)\n\nvar _ = hex.EncodeToString\nvar _ = errors.New\nvar _ = fmt.Sprint\nvar _ io.Reader\n" + replayHelpers +
+		"\nfunc replayOnce(chunk int, budget int, eofWithData bool, fault bool) (obs map[string]interface{}) {\n\tobs = map[string]interface{}{}\n\tdefer func() {\n\t\tif p := recover(); p != nil {\n\t\t\tobs[\"panic\"] = fmt.Sprint(p)\n\t\t}\n\t}()\n" + body.String() + "\treturn obs\n}\n\n" +
+		"func " + testName + "(t *testing.T) {\n\tvar all []map[string]interface{}\n\tfor _, fault := range []bool{false, true} {\n\t\tfor _, eofWithData := range []bool{false, true} {\n\t\t\tfor _, chunk := range []int{1, 0} {\n\t\t\t\tobs := replayOnce(chunk, 1<<30, eofWithData, fault)\n\t\t\t\tobs[\"mode\"] = fmt.Sprintf(\"chunk=%d eofWithData=%v fault=%v\", chunk, eofWithData, fault)\n\t\t\t\tall = append(all, obs)\n\t\t\t}\n\t\t}\n\t}\n\tdata, _ := json.Marshal(all)\n\tos.Stdout.WriteString(\"VERIF-OBS \" + string(data) + \"\\n\")\n}\n"
+	res.Test = src
+	// run with an overlay
+	dir := ""
+	for _, p := range eng.pkgs {
+		if p.Types == pkg && len(p.GoFiles) > 0 {
+			dir = filepath.Dir(p.GoFiles[0])
+		}
+	}
+	if dir == "" {
+		// dependency package: derive from the import path
+		dir = filepath.Join(repo, strings.TrimPrefix(pkg.Path(), "github.com/lugu/qiloop/"))
+	}
+	tmp, err := os.MkdirTemp("", "verif-replay")
+	if err != nil {
+		res.Note = err.Error()
+		return res
+	}
+	defer os.RemoveAll(tmp)
+	tf := filepath.Join(tmp, "zz_verif_replay_test.go")
+	os.WriteFile(tf, []byte(src), 0o644)
+	ov, _ := json.Marshal(map[string]interface{}{"Replace": map[string]string{filepath.Join(dir, "zz_verif_replay_test.go"): tf}})
+	ovf := filepath.Join(tmp, "overlay.json")
+	os.WriteFile(ovf, ov, 0o644)
+	ctx, cancel := context.WithTimeout(context.Background(), 120*time.Second)
+	defer cancel()
+	cmd := exec.CommandContext(ctx, "go", "test", "-overlay", ovf, "-v", "-vet=off", "-count=1", "-timeout", "60s", "-run", "^"+testName+"$", ".")
+	cmd.Dir = dir
+	cmd.Env = append(os.Environ(), "GOFLAGS=-mod=mod", "GOPROXY=off", "GOSUMDB=off", "GOTOOLCHAIN=local")
+	outb, _ := cmd.CombinedOutput()
+	out := string(outb)
+	i := strings.Index(out, "VERIF-OBS ")
+	if i < 0 {
+		res.Note = "replay test produced no observation: " + trunc(out, 600)
+		return res
+	}
+	line := out[i+len("VERIF-OBS "):]
+	if j := strings.Index(line, "\n"); j >= 0 {
+		line = line[:j]
+	}
+	var all []map[string]interface{}
+	if err := json.Unmarshal([]byte(line), &all); err != nil {
+		res.Note = "cannot parse observations: " + err.Error()
+		return res
+	}
+	res.Shape = "real function called with model inputs (scripted reader/recording writer)"
+	for run, obs := range all {
+		if p, ok := obs["panic"]; ok {
+			res.Reproduced = true
+			res.Observed = fmt.Sprintf("run %d: panic: %v", run, p)
+			res.Inputs = inputsSummary(inputs)
+			return res
+		}
+		facts, desc := rp.observationFacts(obs, ct, sig)
+		// can the clause hold given inputs (pinned) and observations?
+		q := &Obligation{Name: o.Name + "/replay", Fn: o.Fn, ctx: &FnCtx{eng: eng, facts: nil}, PC: True, Goal: Not(o.Goal), NFacts: 0}
+		q.Extra = append(append([]*Term(nil), rp.pins...), facts...)
+		file := filepath.Join(outDir, fmt.Sprintf("replay_decide_%d.smt2", run))
+		os.WriteFile(file, []byte(q.script(eng, false)), 0o644)
+		status, _, _ := runSolver(solvers[0], file, 20)
+		if status == "unsat" {
+			res.Reproduced = true
+			res.Observed = fmt.Sprintf("run %d (%v): %s — the clause cannot hold for these inputs and observed outputs", run, obs["mode"], desc)
+			res.Inputs = inputsSummary(inputs)
+			return res
+		}
+		res.Observed += fmt.Sprintf("run %d: %s (clause not refuted: %s); ", run, desc, status)
+	}
+	res.Inputs = inputsSummary(inputs)
+	res.Note = "the real code did not violate the clause on the model's inputs (model was spurious in its uninterpreted/heap part, or the violation needs state that is not observable)"
+	return res
+}
+
+func inputsSummary(ins []*goInput) string {
+	var s []string
+	for _, in := range ins {
+		s = append(s, strings.TrimSpace(in.decl))
+	}
+	return trunc(strings.Join(s, "; "), 3000)
+}
+
+func hexBytes(v interface{}) []byte {
+	s, _ := v.(string)
+	out := make([]byte, len(s)/2)
+	for i := range out {
+		fmt.Sscanf(s[2*i:2*i+2], "%02x", &out[i])
+	}
+	return out
+}
+
+// observationFacts turns the observations into assertions over the post-state terms.
+func (rp *replayer) observationFacts(obs map[string]interface{}, ct *Contract, sig *types.Signature) ([]*Term, string) {
+	var facts []*Term
+	var desc []string
+	add := func(expr string) {
+		t, err := rp.evalPost(expr)
+		if err != nil {
+			rp.notes = append(rp.notes, expr+": "+err.Error())
+			return
+		}
+		facts = append(facts, t)
+	}
+	for k, v := range obs {
+		parts := strings.SplitN(k, ":", 2)
+		if len(parts) != 2 {
+			continue
+		}
+		kind, name := parts[0], parts[1]
+		switch kind {
+		case "err":
+			switch v {
+			case "nil":
+				add(name + " == nil")
+			case "eof":
+				add(name + " == io.EOF")
+			default:
+				add(name + " != nil")
+			}
+			desc = append(desc, fmt.Sprintf("%s=%v", name, v))
+		case "bool":
+			if v == true {
+				add(name)
+			} else {
+				add("!" + name)
+			}
+			desc = append(desc, fmt.Sprintf("%s=%v", name, v))
+		case "int":
+			add(fmt.Sprintf("%s == %v", name, v))
+			desc = append(desc, fmt.Sprintf("%s=%v", name, v))
+		case "field":
+			add(fmt.Sprintf("%s == %v", name, v))
+		case "str", "rbytes", "fbytes", "bytes":
+			b := hexBytes(v)
+			if len(b) <= 4096 {
+				add(fmt.Sprintf("len(%s) == %d", name, len(b)))
+				for i, x := range b {
+					add(fmt.Sprintf("%s[%d] == %d", name, i, x))
+				}
+			}
+			desc = append(desc, fmt.Sprintf("%s=%x", name, trimBytes(b)))
+		case "nilslice":
+			add(name + " == nil")
+		case "rpos":
+			n, _ := v.(float64)
+			add(fmt.Sprintf("%s.pos == old(%s.pos) + %d", name, name, int(n)))
+			desc = append(desc, fmt.Sprintf("consumed=%d", int(n)))
+		case "rshort":
+			if v == true {
+				add(name + ".short")
+			} else {
+				add(fmt.Sprintf("%s.short == old(%s.short)", name, name))
+			}
+		case "wout":
+			b := hexBytes(v)
+			add(fmt.Sprintf("%s.len == %d", name, len(b)))
+			if len(b) <= 4096 {
+				for i, x := range b {
+					add(fmt.Sprintf("%s.data[%d] == %d", name, i, x))
+				}
+			}
+			desc = append(desc, fmt.Sprintf("written=%x", trimBytes(b)))
+		case "wwrites":
+			n, _ := v.(float64)
+			add(fmt.Sprintf("%s.writes == old(%s.writes) + %d", name, name, int(n)))
+			desc = append(desc, fmt.Sprintf("Write calls=%d", int(n)))
+		case "dyn":
+			if v == "nil" {
+				add(name + " == nil")
+			} else {
+				add(name + " != nil")
+				// dynamic type: match by short type name
+				for key, id := range typeTags {
+					t := typeTagTypes[id]
+					if shortTypeKey(t) == v {
+						_ = key
+						func() {
+							defer func() { recover() }()
+							e, _ := ParseExpr(name)
+							val := rp.c.postEnv.eval(e)
+							if val.K == VIface {
+								facts = append(facts, Eq(val.Tag, Num(id)))
+							}
+						}()
+					}
+				}
+			}
+			desc = append(desc, fmt.Sprintf("%s has dynamic type %v", name, v))
+		}
+	}
+	return facts, strings.Join(desc, ", ")
+}
+
+func trimBytes(b []byte) []byte {
+	if len(b) > 48 {
+		return b[:48]
+	}
+	return b
+}
 
 func runBoundedStandins(prop, tier, repo, verif string, seed int, violate func(string, bool), writeReplay func(string, map[string]interface{}) string) interface{} {
 	return nil
 }
+
+var _ = json.Marshal
